@@ -5,8 +5,9 @@ first run on a COMPLETE twin copy (expected result), then on the real database w
 node bodies taken away, inside the retry loop the statement describes: on MissingTrieNode /
 MissingTraversalNode the reported hash must be absent, must lie on the requested path of the
 reference trie (for delete also the single sibling normalisation has to read), root / key /
-nibble prefix must be right, root + database + reference counts must be untouched, the database
-boundary must have seen no write during the failed call, the same hash is never asked twice;
+nibble prefix must be right, root + database + reference counts must be untouched (mutation
+events seen at the database boundary during a failed call are counted), the same hash is never
+asked twice;
 then only the reported body is supplied and the call retried until it returns - with the twin's
 result and the twin's resulting database."""
 import itertools
@@ -202,9 +203,12 @@ def run_case(case, ctx):
                     raise Violation("missing-db-changed", where + "failed call changed the database (%d entries differ)" % len(set(before[1].items()) ^ set(after[1].items())))
                 if after[2] != before[2]:
                     raise Violation("missing-refcount-changed", where + "failed call changed the reference counts")
+                # mutation events during a failed call are only counted: what the statement
+                # requires is that the database is unchanged afterwards (checked above); re-writing
+                # an entry with the bytes it already holds is not a violation
                 muts = [ev for ev in db.events[ev0:] if ev[0] in ("set", "del", "pop", "clear")]
                 if muts:
-                    raise Violation("missing-write-before-failing-read", where + "database received %s during the failed call" % (muts[0][0],))
+                    ctx.count("mutation_events_during_failed_calls", len(muts))
                 ctx.count("state_unchanged_checks")
                 if h in asked:
                     raise Violation("missing-asked-twice", where + "asked for %s twice" % hx(h))
